@@ -5,7 +5,7 @@ From Coq Require Import Extraction ExtrOcamlBasic.
 From Verif Require Import Base.Bytes Base.Val.
 From Verif Require Cobs.Model.
 From Verif Require Rule.Model.
-From Verif Require Store.Model Store.Check.
+From Verif Require Store.Model Store.Check Store.CheckConc.
 
 From Verif Require Sched.Model.
 
@@ -14,10 +14,12 @@ Definition dispatch (area : N) (v : val) : N :=
   match area with
   | 1%N => Store.Check.check_c01 v
   | 3%N => Store.Check.check_c03 v
+  | 4%N => Store.CheckConc.check_c04 v
   | 5%N => Store.Check.check_c05 v
   | 6%N => Store.Check.check_c06 v
   | 13%N => Rule.Model.check_val v
   | 16%N => Cobs.Model.check_val v
+  | 20%N => Store.CheckConc.check_c20 v
   | 14%N => Sched.Model.check_val v
   | _ => 98%N
   end.
